@@ -165,10 +165,18 @@ class DSDLDefinition(ReadableDSDLFile):
         :raises InvalidDefinitionError: If the file does not exist.
         """
         root_path = cls._infer_path_to_root_from_first_found(dsdl_path, valid_dsdl_roots)
-        if not dsdl_path.is_absolute():
-            dsdl_path_resolved = (root_path.parent / dsdl_path).resolve(strict=False)
-        else:
+        if dsdl_path.is_absolute():
             dsdl_path_resolved = dsdl_path.resolve(strict=False)
+        else:
+            try:
+                _ = dsdl_path.relative_to(root_path)
+            except ValueError:
+                # The root was found elsewhere; the target is given relative to the directory that contains the root.
+                dsdl_path_resolved = (root_path.parent / dsdl_path).resolve(strict=False)
+            else:
+                # The root was found inside the target path itself (e.g., "workspace/types/animals/Cat.1.0.dsdl" with
+                # the root "animals" or "workspace/types/animals"), so the path is already complete as given.
+                dsdl_path_resolved = dsdl_path.resolve(strict=False)
         return cls(dsdl_path_resolved, root_path)
 
     def __init__(self, file_path: Path, root_namespace_path: Path):
